@@ -328,6 +328,39 @@ def x10_crash_after_respawn(live0=0):
         "event (another submit, an idle time-out of a sibling) wakes it later"])
 
 
+def x11_crash_holding_mgmt_lock(n=2):
+    """A worker was SIGKILLed inside the idle-time-out branch of _process_worker, between its non-blocking acquire
+    of the cross-process processes_management_lock and the release: the lock stays taken by a dead process. The
+    manager thread runs the real wait_result_broken_or_wakeup and, if it reports a broken pool, terminate_broken."""
+    sl = ExecSlice(n_ids=n, n_workers=2, callq_cap=3, wakeup_cap=2)
+    S = sl.S
+    _obs_basic(sl)
+    sl.thread("M", "manager_detect", [("o", "mt"), ("o", "obs")])
+    sl.finish()
+    S.decl["mgmt.sl.v"] = (S.decl["mgmt.sl.v"][0], None)   # the initial value of the lock is part of the scenario
+    init = z3.And(*_consistent(S, n), S["pending.m"] != 0,
+                  S["processes.m"] == 3, S["ptable.alive"] == 2, S["ptable.started"] == 3, S["ptable.exitlock"] == 0,
+                  S["ptable.next"] == 2, S["ex._max_workers"] == 2,
+                  S["mgmt.sl.v"] == 0, S["mgmt.sl.cnt.0"] == 0,       # taken, but not by the parent
+                  S["shutdown_lock.v"] == 1, S["wakeup.pipe.n"] == 0, z3.ULE(S["callq.free"], 3), S["resq.pipe.n"] == 0,
+                  S["flags.broken?"] == False, S["flags.shutdown"] == False, S["weakref.dead"] == False,
+                  *_refs_present(S))
+    undone = z3.Or(*[z3.And(S[f"futures.st.{i}"] != FINISHED, S[f"futures.st.{i}"] != CANCELLED,
+                            S[f"futures.st.{i}"] != CANCELLED_AND_NOTIFIED, z3.ULT(BV(i), S["workids.tail"])) for i in range(n)])
+    reacted = z3.And(S["flags.broken?"], z3.Not(undone), S["processes.m"] == 0, S["ptable.alive"] == 0)
+    safety = {"C02 the manager thread died while handling the death": S["fail"] != 0}
+    stuck = {"C02 a worker died (holding the processes management lock) and the manager thread never declares the pool "
+             "broken / fails the futures / kills the other workers": z3.And(z3.Not(sl.all_ended()), z3.Not(reacted)),
+             "C01 the manager thread blocks for ever after having handled the death": z3.And(z3.Not(sl.all_ended()), reacted)}
+    # F10 (known finding): everything was failed and killed, then shutdown_workers() waits for the dead worker's lock
+    known = {"F10": z3.And(reacted, S["mgmt.sl.v"] == 0, S["mgmt.sl.cnt.0"] == 0, S["fail"] == 0)}
+    witness = z3.And(S["g.waited"], reacted)
+    return sl, dict(init=init, safety=safety, stuck=stuck, witness=witness, known=known, no_unwinding_end=True, assumptions=[
+        f"initial state: 2 registered workers, worker 0 dead and owner of the management lock, {n} work ids in any consistent state",
+        "the window in the worker is two statements wide (acquire(block=False); release()); SIGKILL there is a crash point "
+        "the property quantifies over"])
+
+
 def x7_reusable_race():
     """Two threads call the real get_reusable_executor concurrently (same or different arguments), from an
     arbitrary singleton state satisfying the factory's invariant."""
